@@ -23,6 +23,7 @@ import (
 	"io"
 	"math"
 	"reflect"
+	"unicode/utf8"
 )
 
 //Encoder type
@@ -135,6 +136,14 @@ func (e *Encoder) WriteData(data interface{}) (int, error) {
 	case reflect.Bool:
 		return e.writeBoolean(v.Bool())
 	case reflect.String:
+		// a Hessian string is a sequence of characters: octets that are not UTF-8 would go out as U+FFFD and
+		// come back as another string
+		if s := v.String(); !utf8.ValidString(s) {
+			if len(s) > 32 {
+				s = s[:32]
+			}
+			return 0, newCodecError("WriteData", "string %q... is not valid UTF-8 and cannot be written as a string, use []byte", s)
+		}
 		return e.writeString(v.String())
 	case reflect.Int8, reflect.Int16, reflect.Int32: // as int
 		return e.writeInt(int32(v.Int()))
